@@ -234,8 +234,8 @@ def coqchk(prop):
 # pipeline: programs -> implementation / model / monitors
 
 SIZES = {"quick": dict(wf=150, fault=114, free=120, known=9, chains=25, chain_exh=3, perm_bases=40, perms=3, stub_bases=30),
-         "thorough": dict(wf=7000, fault=5700, free=6000, known=60, chains=300, chain_exh=6, perm_bases=1500, perms=4, stub_bases=1200),
-         "search": dict(wf=2500, fault=1900, free=2500, known=30, chains=100, chain_exh=4, perm_bases=500, perms=3, stub_bases=400)}
+         "thorough": dict(wf=3000, fault=1900, free=3000, known=60, chains=300, chain_exh=6, perm_bases=500, perms=4, stub_bases=400),
+         "search": dict(wf=900, fault=570, free=900, known=30, chains=60, chain_exh=4, perm_bases=150, perms=3, stub_bases=120)}
 
 
 def corpus_programs():
@@ -316,7 +316,7 @@ def pipeline(seed, tier):
     d = os.path.join(CACHE, "run-" + key)
     r = Run()
     r.dir, r.key, r.seed, r.tier = d, key, seed, tier
-    done = os.path.join(d, "DONE.json")
+    done = os.path.join(d, "DONE.json.gz")
     sz = SIZES[tier]
     batch = corpus_programs() if tier != "search" else []
     for p, m in gen.generate(seed, sz["wf"], sz["fault"], sz["free"], sz["known"]):
@@ -355,20 +355,27 @@ def pipeline(seed, tier):
     r.programs = [p for p, _ in batch]
     r.metas = [m for _, m in batch]
     if os.path.exists(done):
-        saved = json.load(open(done))
-        r.impl, r.model, r.mon, r.problems = saved["impl"], saved["model"], saved["mon"], saved["problems"]
+        import gzip
+        saved = json.load(gzip.open(done, "rt"))
+        r.impl, r.mon, r.problems = saved["impl"], saved["mon"], saved["problems"]
+        r.model = [a if b == "=" else b for a, b in zip(saved["impl"], saved["model"])]
         r.cached = True
         return r
     t0 = time.time()
     r.impl, r.model, r.mon, r.problems = run_programs(r.programs, d)
     r.cached = False
     r.wall = time.time() - t0
-    with open(done, "w") as f:
-        json.dump({"impl": r.impl, "model": r.model, "mon": r.mon, "problems": r.problems}, f)
-    # keep the cache small: drop the oldest run directories beyond 6
+    import gzip
+    with gzip.open(done, "wt", compresslevel=3) as f:
+        json.dump({"impl": r.impl, "model": ["=" if a == b else b for a, b in zip(r.impl, r.model)],
+                   "mon": r.mon, "problems": r.problems}, f)
+    for fn in os.listdir(d):
+        if re.match(r"s\d+\.(sexp|impl|model|mon)$", fn):
+            os.remove(os.path.join(d, fn))
+    # keep the cache small: drop the oldest run directories beyond 3
     runs = sorted((x for x in os.listdir(CACHE) if x.startswith("run-")),
                   key=lambda x: os.path.getmtime(os.path.join(CACHE, x)))
-    for old in runs[:-6]:
+    for old in runs[:-3]:
         sh("rm -rf %s" % os.path.join(CACHE, old), 60)
     return r
 
@@ -519,6 +526,16 @@ def check(prop, tier, seed):
         if not b[comp]["ok"]:
             broken.append("build:%s: %s" % (comp, b[comp]["log"][-400:]))
     ps = proof_status(prop)
+    for extra in spec.get("extra_files", []):
+        ps2 = proof_status(extra)
+        ps["obligations"] = ps.get("obligations", 0) + len(ps2.get("theorems", []))
+        ps["discharged"] = ps.get("discharged", 0) + (len(ps2.get("theorems", [])) if ps2["ok"] else 0)
+        ps["theorems"] = ps.get("theorems", []) + ps2.get("theorems", [])
+        ps["cone"] = sorted(set(ps.get("cone", []) + ps2.get("cone", [])))
+        ps["closed"] = ps.get("closed", 0) + ps2.get("closed", 0)
+        ps["axioms"] = sorted(set(ps.get("axioms", []) + ps2.get("axioms", [])))
+        ps["problems"] = ps.get("problems", []) + ps2.get("problems", [])
+        ps["ok"] = ps["ok"] and ps2["ok"]
     if not ps["ok"]:
         broken += ["proof:" + x for x in ps["problems"]] or ["proof: obligations %d discharged %d" % (ps.get("obligations", 0), ps.get("discharged", 0))]
     chk = None
